@@ -205,6 +205,9 @@ func (s *c39MsgServer) handle(req bin.Encoder) (bin.Encoder, error) {
 	if s.cap > 0 && lim > s.cap {
 		lim = s.cap
 	}
+	if s.respKind == "all-at-once" { // non-paginating server: the whole rest of the list as messages.messages
+		lim = n
+	}
 	e := p + lim
 	if lim < 0 {
 		e = p
@@ -230,7 +233,7 @@ func (s *c39MsgServer) handle(req bin.Encoder) (bin.Encoder, error) {
 	switch s.respKind {
 	case "full-or-slice": // messages.messages only when the answer is the complete list
 		full = p == 0 && e == n
-	case "tail-full": // messages.messages whenever the answer reaches the end of the list
+	case "tail-full", "all-at-once": // messages.messages whenever the answer reaches the end of the list
 		full = e == n
 	}
 	l.From, l.Returned = p, len(page)
@@ -632,6 +635,9 @@ func (s *c39DlgServer) handle(req bin.Encoder) (bin.Encoder, error) {
 		}
 	}
 	e := min(p+max(c39Eff(r.Limit, s.cap), 0), n)
+	if s.respKind == "all-at-once" {
+		e = n
+	}
 	page := s.list[p:e]
 	var (
 		dl    []tg.DialogClass
@@ -655,7 +661,7 @@ func (s *c39DlgServer) handle(req bin.Encoder) (bin.Encoder, error) {
 	switch s.respKind {
 	case "full-or-slice":
 		full = p == 0 && e == n
-	case "tail-full":
+	case "tail-full", "all-at-once":
 		full = e == n
 	}
 	l.From, l.Returned = p, len(page)
@@ -772,6 +778,272 @@ func c39RunDialogs(c *mon.Ctx, respKind string, ties bool, list []c39Dlg, limit,
 	}
 }
 
+// ---- API arm: Total / FetchTotal / Collect / ForEach / Count around the iteration ----
+
+// c39Iter is what both iterators offer.
+type c39Iter interface {
+	Next(ctx context.Context) bool
+	Err() error
+	Total(ctx context.Context) (int, error)
+	FetchTotal(ctx context.Context) (int, error)
+}
+
+// c39API adapts one iterator family; every closure builds a fresh query builder.
+type c39API struct {
+	iter    func() (c39Iter, func() (int64, bool))
+	collect func(ctx context.Context) ([]int64, error)
+	forEach func(ctx context.Context, cb func(int64)) error
+	count   func(ctx context.Context) (int, error)
+}
+
+var c39Modes = []string{"total-before", "total-middle", "total-after", "collect", "foreach", "count"}
+
+type c39Drive struct {
+	got     []int64
+	totals  []int    // every value returned by Total/FetchTotal/Count
+	calls   []string // which call produced totals[i]
+	probes  int      // explicit count requests the mode is allowed to add to the query bound
+	err     error
+	runaway bool
+	foreign bool
+}
+
+func (a c39API) drive(mode string, n int) (d c39Drive) {
+	ctx := context.Background()
+	guard := 4*n + 16
+	total := func(name string, f func(context.Context) (int, error)) bool {
+		t, err := f(ctx)
+		if err != nil {
+			d.err = fmt.Errorf("%s: %w", name, err)
+			return false
+		}
+		d.totals, d.calls = append(d.totals, t), append(d.calls, name)
+		return true
+	}
+	loop := func(it c39Iter, val func() (int64, bool), mid func() bool) {
+		for it.Next(ctx) {
+			v, ok := val()
+			if !ok {
+				d.foreign = true
+				return
+			}
+			d.got = append(d.got, v)
+			if len(d.got) > guard {
+				d.runaway = true
+				return
+			}
+			if mid != nil && len(d.got) == (n+1)/2 {
+				if !mid() {
+					return
+				}
+			}
+		}
+		if d.err == nil {
+			d.err = it.Err()
+		}
+	}
+	switch mode {
+	case "total-before":
+		it, val := a.iter()
+		d.probes = 1
+		if !total("Total-before", it.Total) {
+			return
+		}
+		loop(it, val, nil)
+		if d.err == nil && !d.runaway {
+			total("Total-after", it.Total)
+		}
+	case "total-middle":
+		it, val := a.iter()
+		d.probes = 1
+		loop(it, val, func() bool {
+			return total("Total-middle", it.Total) && total("FetchTotal-middle", it.FetchTotal)
+		})
+	case "total-after":
+		it, val := a.iter()
+		d.probes = 1
+		loop(it, val, nil)
+		if d.err == nil && !d.runaway {
+			_ = total("Total-after", it.Total) && total("FetchTotal-after", it.FetchTotal)
+		}
+	case "collect":
+		d.probes = 1
+		d.got, d.err = a.collect(ctx)
+	case "foreach":
+		d.err = a.forEach(ctx, func(v int64) { d.got = append(d.got, v) })
+	case "count":
+		d.probes = 1
+		total("Count", a.count)
+	}
+	return d
+}
+
+// c39Judge applies the unchanged sequence oracle plus Total()==N.
+func c39Judge(c *mon.Ctx, sig string, d c39Drive, pv any, stack string, want []int64, n int, checkTotals, seqMode bool,
+	exceeded bool, harness string, w func() map[string]any) {
+	if harness != "" {
+		c.Inconclusive("c39 fake server: " + harness)
+		return
+	}
+	var herr *c39HarnessErr
+	wit := func() map[string]any {
+		m := w()
+		m["totals"], m["total_calls"] = d.totals, d.calls
+		return m
+	}
+	switch {
+	case pv != nil:
+		ww := wit()
+		ww["panic"], ww["stack"] = fmt.Sprint(pv), stack
+		c.Violate(sig+"panic", ww)
+		return
+	case d.foreign:
+		c.Inconclusive("c39: unexpected element type")
+		return
+	case d.err != nil && errors.As(d.err, &herr):
+		c.Inconclusive(herr.Error())
+		return
+	case exceeded || d.runaway:
+		c.Violate(sig+"no-termination-within-query-bound", wit())
+		return
+	case d.err != nil:
+		ww := wit()
+		ww["error"] = d.err.Error()
+		c.Violate(sig+"iterator-error", ww)
+		return
+	}
+	if seqMode {
+		if diff := c39Diff(d.got, want); diff != "" {
+			c.Violate(sig+diff, wit())
+		}
+	}
+	if checkTotals {
+		for i, t := range d.totals {
+			if t != n {
+				c.Violate(sig+"total-mismatch|"+strings.SplitN(d.calls[i], "-", 2)[0], wit())
+				break
+			}
+		}
+	}
+}
+
+func c39RunMessagesAPI(c *mon.Ctx, respKind, mode string, hist []c39Msg, limit int) {
+	c.Eval(1)
+	n := len(hist)
+	cfg := c39MsgCfg{endpoint: "history", respKind: respKind, prec: "id"}
+	srv := &c39MsgServer{hist: hist, respKind: respKind, prec: "id", channel: respKind == "channel"}
+	var want []int64
+	for _, m := range hist {
+		want = append(want, int64(m.ID))
+	}
+	var peer tg.InputPeerClass = &tg.InputPeerUser{UserID: 10, AccessHash: 77}
+	if srv.channel {
+		peer = &tg.InputPeerChannel{ChannelID: 20, AccessHash: 88}
+	}
+	raw := tg.NewClient(c39Invoker(srv.handle))
+	b := func() *messages.GetHistoryQueryBuilder {
+		return messages.NewQueryBuilder(raw).GetHistory(peer).BatchSize(limit)
+	}
+	api := c39API{
+		iter: func() (c39Iter, func() (int64, bool)) {
+			it := b().Iter()
+			return it, func() (int64, bool) { return int64(it.Value().Msg.GetID()), true }
+		},
+		collect: func(ctx context.Context) ([]int64, error) {
+			el, err := b().Collect(ctx)
+			var r []int64
+			for _, e := range el {
+				r = append(r, int64(e.Msg.GetID()))
+			}
+			return r, err
+		},
+		forEach: func(ctx context.Context, cb func(int64)) error {
+			return b().ForEach(ctx, func(_ context.Context, e messages.Elem) error { cb(int64(e.Msg.GetID())); return nil })
+		},
+		count: func(ctx context.Context) (int, error) { return b().Count(ctx) },
+	}
+	var d c39Drive
+	// bound: pages + the explicit count requests of the mode (set before the run: every mode adds at most 1)
+	srv.bound = c39Bound(n, c39Eff(limit, 100)) + 1
+	pv, stack := mon.Try(func() { d = api.drive(mode, n) })
+	w := func() map[string]any {
+		return map[string]any{"iterator": "messages", "config": cfg.String(), "mode": mode, "n": n, "limit": limit, "history": hist,
+			"want": want, "got": d.got, "queries": srv.queries, "query_bound": srv.bound, "requests": c39ShortLog(srv.log)}
+	}
+	// messages.messages of the doubtful tail-full variant carries only the last page: no Total promise there
+	c39Judge(c, "api|"+mode+"|messages|"+cfg.String()+"|", d, pv, stack, want, n, respKind != "tail-full", mode != "count", srv.exceeded, srv.harness, w)
+	c.Distinct(fmt.Sprintf("api/msg/%s/%s/pages=%d/n=%d", mode, respKind, min((n+limit-1)/limit, 4), min(n, 3)))
+	if n == 5 && limit == 2 && respKind == "slice" {
+		c.Sample("api-messages", map[string]any{"mode": mode, "n": n, "limit": limit, "yielded": d.got, "totals": d.totals, "total_calls": d.calls, "queries": srv.queries})
+	}
+}
+
+func c39RunDialogsAPI(c *mon.Ctx, respKind, mode string, list []c39Dlg, limit int) {
+	c.Eval(1)
+	n := len(list)
+	srv := &c39DlgServer{list: list, respKind: respKind, bound: c39Bound(n, limit) + 1}
+	var want []int64
+	for _, d := range list {
+		want = append(want, d.key())
+	}
+	key := func(e dialogs.Elem) (int64, bool) {
+		d, ok := e.Dialog.(*tg.Dialog)
+		if !ok {
+			return 0, false
+		}
+		switch p := d.Peer.(type) {
+		case *tg.PeerUser:
+			return c39Dlg{Kind: 0, Peer: p.UserID}.key(), true
+		case *tg.PeerChat:
+			return c39Dlg{Kind: 1, Peer: p.ChatID}.key(), true
+		case *tg.PeerChannel:
+			return c39Dlg{Kind: 2, Peer: p.ChannelID}.key(), true
+		}
+		return 0, false
+	}
+	raw := tg.NewClient(c39Invoker(srv.handle))
+	b := func() *dialogs.GetDialogsQueryBuilder { return dialogs.NewQueryBuilder(raw).GetDialogs().BatchSize(limit) }
+	foreign := false
+	api := c39API{
+		iter: func() (c39Iter, func() (int64, bool)) {
+			it := b().Iter()
+			return it, func() (int64, bool) { return key(it.Value()) }
+		},
+		collect: func(ctx context.Context) ([]int64, error) {
+			el, err := b().Collect(ctx)
+			var r []int64
+			for _, e := range el {
+				k, ok := key(e)
+				foreign = foreign || !ok
+				r = append(r, k)
+			}
+			return r, err
+		},
+		forEach: func(ctx context.Context, cb func(int64)) error {
+			return b().ForEach(ctx, func(_ context.Context, e dialogs.Elem) error {
+				k, ok := key(e)
+				foreign = foreign || !ok
+				cb(k)
+				return nil
+			})
+		},
+		count: func(ctx context.Context) (int, error) { return b().Count(ctx) },
+	}
+	var d c39Drive
+	pv, stack := mon.Try(func() { d = api.drive(mode, n) })
+	d.foreign = d.foreign || foreign
+	cfg := "getDialogs|" + respKind + "|server=unique-dates"
+	w := func() map[string]any {
+		return map[string]any{"iterator": "dialogs", "config": cfg, "mode": mode, "n": n, "limit": limit, "dialogs": list,
+			"want": want, "got": d.got, "queries": srv.queries, "query_bound": srv.bound, "requests": c39ShortLog(srv.log)}
+	}
+	c39Judge(c, "api|"+mode+"|dialogs|"+cfg+"|", d, pv, stack, want, n, respKind != "tail-full", mode != "count", srv.exceeded, srv.harness, w)
+	c.Distinct(fmt.Sprintf("api/dlg/%s/%s/pages=%d/n=%d", mode, respKind, min((n+limit-1)/limit, 4), min(n, 3)))
+	if n == 5 && limit == 2 && respKind == "slice" {
+		c.Sample("api-dialogs", map[string]any{"mode": mode, "n": n, "limit": limit, "yielded": d.got, "totals": d.totals, "total_calls": d.calls, "queries": srv.queries})
+	}
+}
+
 func runC39(c *mon.Ctx) {
 	relaxGC()
 	c.Rule("EXHAUSTIVE grid N in 0..40 (thorough 0..150) x page size in 1..N+1 (861 resp. 11476 pairs, includes every exact multiple) for each server configuration: " +
@@ -779,7 +1051,9 @@ func runC39(c *mon.Ctx) {
 		"messages.messages-whenever-the-answer-reaches-the-end} x offset precedence variants {id, date, both}; Search builder (offset_id+add_offset) x 3 kinds; " +
 		"SearchGlobal builder (offset_rate/offset_peer/offset_id, next_rate fed back) x 2 kinds x {id, rate}; dialogs iterator through the real GetDialogs builder x " +
 		"{dialogsSlice, dialogs-when-complete, dialogs-at-end} x {unique dates, tied dates with (date,id,peer) lexicographic offsets}. Each run iterates to exhaustion; " +
-		"the yielded id sequence must equal the server's list; more than ceil(N/limit)+2 queries = non-termination. Large arm (both tiers, tag large): N in {99,100,101,120,199,200,201,250,1000} x " +
+		"the yielded id sequence must equal the server's list; more than ceil(N/limit)+2 queries = non-termination. API arm (both tiers, signature prefix api|<mode>|): N in 0..12 (thorough 0..40) x every page size x response kinds (plus a non-paginating all-at-once server) x modes " +
+		"{Total before / Total+FetchTotal in the middle / after the iteration, builder.Collect, ForEach, Count}: same sequence oracle, and every Total/FetchTotal/Count value must equal N " +
+		"(not demanded for the tail-full variant). Large arm (both tiers, tag large): N in {99,100,101,120,199,200,201,250,1000} x " +
 		"page size in {1 (N<=250),7,50,99,100,101,120,128,250,1000,N-1,N,N+1} x 7 message configurations (all 4 response kinds) + 4 dialog configurations, each against a server that " +
 		"honours any limit and (page size > 100) a server that truncates limits to 100 like Telegram (config suffix server-cap=100; bound uses the effective page size), plus start offsets and a " +
 		"random sample with N and page size up to 2000. Sampled extra arms: iteration started from an " +
@@ -829,6 +1103,28 @@ func runC39(c *mon.Ctx) {
 	c.Set("grid_configs_messages", len(msgCfgs))
 	c.Set("grid_configs_dialogs", 2*len(dlgKinds))
 	c.Exhaustive(true)
+
+	// API arm (both tiers): Total / FetchTotal before, in the middle of and after the iteration,
+	// Collect, ForEach, Count; small N, every page size, every response kind incl. a
+	// non-paginating server that returns the whole list at once.
+	apiRuns := 0
+	for n := 0; n <= c.N(12, 40); n++ {
+		hist := c39History(c.RandN("c39-hist-api", n), n, false)
+		dl := c39Dialogs(c.RandN("c39-dlg-api", n), n, false)
+		for limit := 1; limit <= n+1; limit++ {
+			for _, mode := range c39Modes {
+				for _, k := range []string{"slice", "channel", "full-or-slice", "tail-full", "all-at-once"} {
+					c39RunMessagesAPI(c, k, mode, hist, limit)
+					apiRuns++
+				}
+				for _, k := range []string{"slice", "full-or-slice", "tail-full", "all-at-once"} {
+					c39RunDialogsAPI(c, k, mode, dl, limit)
+					apiRuns++
+				}
+			}
+		}
+	}
+	c.Set("api_arm_runs", apiRuns)
 
 	// large-N arm (both tiers) ------------------------------------------------
 	// Page sizes around and above Telegram's per-request maximum (100) over histories
